@@ -52,12 +52,14 @@ impl ReplaySrc {
         Self { vals, pos: 0 }
     }
     fn take(&mut self) -> u64 {
-        let v = self.vals.get(self.pos).cloned().unwrap_or_default();
-        self.pos += 1;
+        // no allocation here: the C17 replays count allocations while a scenario runs
         let mut x = 0u64;
-        for (i, b) in v.iter().enumerate().take(8) {
-            x |= (*b as u64) << (8 * i);
+        if let Some(v) = self.vals.get(self.pos) {
+            for (i, b) in v.iter().enumerate().take(8) {
+                x |= (*b as u64) << (8 * i);
+            }
         }
+        self.pos += 1;
         x
     }
 }
